@@ -224,7 +224,7 @@ func checkC07(p *Prog, r *Result, tier string) {
 		}
 	}
 	// R1 (b): ITER
-	checkValidateLoops(p, c, r, "C07.R1", effs(ECallInit, EHookT, ECanon, EOkValid, EOkUniqLive, EOkAcceptTemp))
+	checkValidateLoops(p, c, r, "C07.R1", effs(ECallInit, EHookT, ECanon, EOkValid, EOkSer, EOkUniqLive, EOkAcceptTemp))
 	// R1 (c): structure of the loops over the variadic parameter
 	checkWholeSliceLoops(p, r, "C07.R1", many)
 
